@@ -281,6 +281,36 @@ func runC20(p *Prog, r *Report, tier string) {
 				"on every edge into the slice bound the count is len(flowRecords) or proven 0 <= count <= len(flowRecords) by the branch conditions", "the count used in the slice bound is not clamped to [0, len(flowRecords)]: "+why+" (a large or negative count panics or returns the wrong window)", true)
 		}
 	}
+	// the stored entries are written verbatim (never used as a format string)
+	eachInstr(q, func(in ssa.Instruction) {
+		c, ok := in.(*ssa.Call)
+		if !ok {
+			return
+		}
+		n := calleeName(&c.Call)
+		if n == "fmt.Fprintf" || n == "fmt.Sprintf" || n == "fmt.Printf" {
+			fa := c.Call.Args[0]
+			if n == "fmt.Fprintf" {
+				fa = c.Call.Args[1]
+			}
+			if _, isConst := fa.(*ssa.Const); !isConst {
+				if _, ok := gs.derives(fa, 0); ok || derivesFromStore(fa, 0) {
+					r.Violation("R-VALUE.verbatim", fnKey(q)+": stored entry used as a format string", p.instrPos(in), "a rendered entry is passed as the format of "+n+": '%' sequences in field values are mangled in the text response")
+				}
+			}
+		}
+	})
+	nw := 0
+	eachInstr(q, func(in ssa.Instruction) {
+		c, ok := in.(*ssa.Call)
+		if !ok || !c.Call.IsInvoke() || c.Call.Method.Name() != "Write" {
+			return
+		}
+		if cv, ok := c.Call.Args[0].(*ssa.Convert); ok && derivesFromStore(cv.X, 0) {
+			nw++
+		}
+	})
+	r.Check(nw >= 1, "R-VALUE.verbatim", fnKey(q)+": text format writes each entry's bytes", p.pos(q.Pos()), "w.Write([]byte(records[i]))", "the text response does not write the stored entries' bytes as they are", true)
 	// 4xx before the store
 	n4 := 0
 	for _, fn := range []*ssa.Function{q, rs} {
@@ -449,4 +479,31 @@ func breakLeavesLoop(rg *ast.RangeStmt, b *ast.BranchStmt) int {
 	}
 	walk(rg.Body, false)
 	return leaves
+}
+
+// derivesFromStore: v is an element / sub-slice of the flowRecords store.
+func derivesFromStore(v ssa.Value, d int) bool {
+	if d > 6 || v == nil {
+		return false
+	}
+	switch x := v.(type) {
+	case *ssa.UnOp:
+		if g, ok := x.X.(*ssa.Global); ok && g.Name() == "flowRecords" {
+			return true
+		}
+		return derivesFromStore(x.X, d+1)
+	case *ssa.IndexAddr:
+		return derivesFromStore(x.X, d+1)
+	case *ssa.Slice:
+		return derivesFromStore(x.X, d+1)
+	case *ssa.Convert:
+		return derivesFromStore(x.X, d+1)
+	case *ssa.Phi:
+		for _, e := range x.Edges {
+			if derivesFromStore(e, d+1) {
+				return true
+			}
+		}
+	}
+	return false
 }
